@@ -232,6 +232,9 @@ impl Controller for Cubic {
 
     fn set_mss(&mut self, mss: usize) {
         self.mss = mss;
+        // The congestion window never drops below one segment (see `on_ack`, `on_rto`),
+        // also when the segment size learned from the remote end is larger than it.
+        self.cwnd = self.cwnd.max(mss);
         self.recompute_k();
     }
 
